@@ -54,11 +54,11 @@ CHECKS["C15"] = ("E1-enum", "exploration",
   "Whole-system half: the index and index2 (two index modules in one job) programs served by the real tier1+tier2 with the index files absent (built in the request), alone, with everything, missing while everything else is present, and present for one of two index modules only; compared with each other and with the per-block reference.",
   "bounded exhaustive enumeration of expressions x key assignments, differential between the two real evaluators", "3/C15")
 CHECKS["C04"] = ("E3-sysrun", "exploration",
-  "Bounded-exhaustive over request configurations on the whole system (real Tier1Service.blocks, real Tier2Service.processRange in-process, real hashes, scripted modules): mode x segment size x module initial blocks x start x stop x final block on three programs; range, order, duplicates, gaps at the hand-off, cursors, and a resumed request from the cursor of every delivered final block compared with the original suffix; plus the block source shutting down cleanly at every block (tier1 stream and segment jobs): an error, never a silently truncated stream.",
+  "Bounded-exhaustive over request configurations on the whole system (real Tier1Service.blocks, real Tier2Service.processRange in-process, real hashes, scripted modules): mode x segment size x module initial blocks x start x stop x final block on three programs; range, order, duplicates, gaps at the hand-off, cursors, and a resumed request from the cursor of every delivered final block compared with the original suffix; plus the block source shutting down cleanly at every block (tier1 stream and segment jobs) and the response sink panicking on a block of the linear part: an error, never a silently truncated or gapped stream.",
   "Goroutine timing inside one request is not controlled (E2 does that for the scheduler); one effective worker; fork-free chain; derr back-off and dstore zstd options overlaid for speed.",
   "bounded exhaustive enumeration of configurations, each executed on the real tier1+tier2 implementation", "3/C04")
 CHECKS["C01"] = ("E3-sysrun", "exploration",
-  "Bounded-exhaustive differential check on the whole system: 10 (thorough 16) scripted module graphs x segment size x mode x (start,stop) shapes x final block x cache histories (empty, other range, dev-then-prod, another output module of the same graph, a one-field mutant of an ancestor run first on the same cache, an earlier request followed by the eviction of a file class); every request's non-empty (number,id,payload) stream must equal the linear reference run of the real system and the reference interpreter. Payloads echo store reads and deltas.",
+  "Bounded-exhaustive differential check on the whole system: 13 (thorough 18) scripted module graphs x segment size x mode x (start,stop) shapes x final block x cache histories (empty, other range, dev-then-prod, another output module of the same graph, a one-field mutant of an ancestor run first on the same cache, an earlier request followed by the eviction of a file class); every request's non-empty (number,id,payload) stream must equal the linear reference run of the real system and the reference interpreter. Payloads echo store reads and deltas.",
   "Schedule dimension (completion order, workers) is the C05 explorer's; goroutine timing inside a run is not controlled; programs are scripted modules, not compiled WASM.",
   "bounded exhaustive enumeration of configurations and cache histories, differential between strategies of the real system + reference interpreter", "3/C01")
 CHECKS["C07"] = ("E3-sysrun", "fault_enumeration",
@@ -70,7 +70,7 @@ CHECKS["C05"] = ("E2-schedx", "model_checking",
   "loop.EventLoop.Run is bypassed; asynchronous squasher writes are drained after each event; the partial-vs-full load race is decided by a store wrapper (full wins / partial wins / partial wins and the losing load completes during a later merge); more than 2 identical pending wake-up messages are coalesced (cross-checked against the exact search with --cap 0).",
   "explicit-state BFS over the implementation's own transition function (stateful model checking on the real code, successors by replay)", "2.4 E2, 3/C05")
 CHECKS["C16"] = ("E3-sysrun", "fault_enumeration",
-  "Exhaustive enumeration of fault placements: every multiset of <=3 (thorough 4) transient faults over the (job, attempt) sites of a request x 4 fault kinds (+ a fifth, the worker answering Canceled, as first or second fault) on four programs (incl. a last stage fed from cached outputs and two modules in one layer), and a deterministic module failure at every block in every module, both modes; jobs run through the real RemoteWorker (retry loop, classification) against the real tier2 processRange and the real error mappings of both tiers; streams compared with the fault-free run.",
+  "Exhaustive enumeration of fault placements: every multiset of <=3 (thorough 4) transient faults over the (job, attempt) sites of a request x 4 fault kinds (+ as first or second fault: the worker answering Canceled, the worker cancelled right after a job's last block, the worker cancelled while a module's host call is in flight) on five programs (incl. a last stage fed from cached outputs, two modules in one layer, context-sensitive modules), and a deterministic module failure at every block in every module, both modes; jobs run through the real RemoteWorker (retry loop, classification) against the real tier2 processRange and the real error mappings of both tiers; streams compared with the fault-free run.",
   "The gRPC transport is an in-process fake stream; goroutine timing inside a run is not controlled; back-off shortened by overlay.",
   "exhaustive enumeration of fault sequences injected at the worker transport of the real implementation", "3/C16")
 CHECKS["C03"] = ("E3-sysrun", "exploration",
